@@ -67,18 +67,17 @@ theorem C05_linearizable_close (scripts : List (List COp)) (c : Cfg Shared Threa
     (hr : Reach sys (initCfg scripts) c) : Lin.Linearizable (histOf c.1.tr).toArray :=
   Lin.validate_sound _ _ (model_history_validates hr)
 
-/-- **Model ↔ checker (partial).**  For the history of every reachable trace of the protocol model
-the checker's *verified validator* accepts an explicit witness (`witness`: linearisation-point order,
-late operations last) — so the acceptance criterion of `drv_c05` is met by every behaviour of the
-model, and a history on which no witness validates deviates from the model.
-MISSING for "`decideHist` accepts": (a) that the unverified Wing–Gong search `dfs` (a `partial def`,
-opaque to the logic) finds a witness whenever one exists; (b) `decideHist` wants the operations in
-invocation order, `histOf` lists them in linearisation-point order (re-indexing the witness along the
-sorting permutation is not proved). -/
-theorem C05_checker_complete_on_model_partial (scripts : List (List COp)) (c : Cfg Shared Thread)
+/-- **Model ↔ checker.**  The history of every reachable trace of the protocol model is *accepted* by
+`decideHist` — the very function `drv_c05` runs on the histories recorded from the real code (total
+Wing–Gong search with memoisation, then the validator): without a node budget outright; with the
+budget the driver uses (`some 400000`) unless the search reports that it gave up.  Hence a
+`reject not-linearizable` of the driver is a deviation from every behaviour of the model. -/
+theorem C05_checker_complete_on_model (scripts : List (List COp)) (c : Cfg Shared Thread)
     (hr : Reach sys (initCfg scripts) c) :
-    ∃ w, Lin.validate (histOf c.1.tr).toArray w = true :=
-  ⟨_, model_history_validates hr⟩
+    Lin.decideHist (histOf c.1.tr) none = .accept ∧
+    ∀ budget, Lin.decideHist (histOf c.1.tr) budget = .accept ∨
+      Lin.decideHist (histOf c.1.tr) budget = .reject "budget-exhausted" :=
+  ⟨model_history_accepted_unbounded hr, model_history_accepted hr⟩
 
 /-- Where the events of a call sit in a reachable trace: every linearisation point lies after the
 invocation event of its call and before its response event (positions; `retPos = length` if the call
@@ -206,10 +205,21 @@ namespace Hive.KV.Lin
 code: a history is accepted only if it is linearizable — there is an order of all its operations
 (each write of a committed batch is one operation) that respects real time and in which the C04
 ordered map (with its closed flag) gives exactly the recorded answers.  Only the witness check is
-trusted to be what it is proved to be; the search is not. -/
-theorem C05_checker_sound (h : List HOp) (budget : Nat) (hacc : decideHist h budget = .accept) :
+needed for this direction. -/
+theorem C05_checker_sound (h : List HOp) (budget : Option Nat) (hacc : decideHist h budget = .accept) :
     Linearizable h.toArray :=
   decideHist_sound h budget hacc
+
+/-- **Completeness of the history checker**: the search is a total function (structural recursion
+on the number of operations still to linearise; its memo table only ever contains configurations
+without completion), and it finds a linearisation whenever one exists: a well-stamped (every
+operation invoked before it returned) linearizable history is accepted — always without a budget,
+and with a budget unless the search reports `budget-exhausted`.  Together with `C05_checker_sound`:
+without budget `decideHist` *decides* linearizability of well-stamped histories. -/
+theorem C05_checker_complete (h : List HOp) (hws : wellStamped h.toArray = true) (hlin : Linearizable h.toArray) :
+    decideHist h none = .accept ∧
+    ∀ budget, decideHist h budget = .accept ∨ decideHist h budget = .reject "budget-exhausted" :=
+  ⟨decideHist_complete_unbounded h hws hlin, fun b => decideHist_complete h b hws hlin⟩
 
 end Hive.KV.Lin
 
